@@ -4,6 +4,11 @@
 
 package clos
 
+// C07, package-wide: a function that evaluates Lisp forms itself forwards the
+// return-from / go marker an evaluation hands back: nothing more is evaluated
+// and the marker is the function's result.
+//@ every-function clos forward-exits
+
 // ---------------------------------------------------------------------------
 // C12: CLOS classes.
 
